@@ -96,6 +96,8 @@ Y1 == R(1,2)
 Y2 == R(1,1)
 B1f  == SD("b1d", Y1, FALSE, TRUE, 0, 0, 0, 0)
 B1bf == SD("b1d", Y2, TRUE, TRUE, 0, 0, 0, 0)
+B1b  == SD("b1d", Y1, TRUE, FALSE, 0, 0, 0, 0)            \* padup only (bf still has to be given to the class)
+B1a  == [SD("b1d", Y2, TRUE, TRUE, 0, 0, 0, 0) EXCEPT !.flam = LamGen, !.bb = R(1,2)]      \* angle-ply flange, wide padup
 B2f  == SD("b2d", Y1, FALSE, TRUE, 0, 0, 2, 1)           \* flange 6
 B2bf == SD("b2d", Y2, TRUE, TRUE, 0, 0, 2, 2)            \* flange 12
 B2b  == SD("b2d", Y1, TRUE, FALSE, 0, 0, 0, 0)            \* padup only (see KF_C13_Blade2DWithoutFlangeRaises)
@@ -108,7 +110,7 @@ QuickStiffBays ==
       Bay(SkS, CutsS, <<T2b, T2a>>),
       Bay(SkSc, CutsS, <<B2bf, T2a, B2f, T2b, B1f, B1bf>>),
       Bay(SkSc, CutsS, <<T2a, B1f, B2f>>),
-      Bay(SkS, CutsS, <<B2f, B2b>>) }
+      Bay(SkS, CutsS, <<B2f, B2b>>), Bay(SkS, CutsS, <<B1b, B1a>>), Bay(SkSc, CutsS, <<B1a, B1b, B1f>>) }
 ThoroughStiffBays == QuickStiffBays \cup
     { Bay(sk, CutsS, <<x, y, z>>) : sk \in {SkS, SkSc}, x \in {B1f, B2f, T2a}, y \in {B2bf, T2b, B1bf}, z \in {B2f, T2a, B1f} }
     \cup { Bay(SkS, CutsS, <<T2b, B2bf, T2a, B1bf, B2f, B1f>>), Bay(SkS, CutsS, <<B1f, T2a, B2f, T2b, B2bf>>) }
@@ -119,7 +121,7 @@ PartForces(sd, part, i) ==
 StiffReqs(bd) ==
     { [q |-> "size"], [q |-> "place"] }
     \cup { [q |-> "stiff", k |-> i, mat |-> mt, Nf |-> << R(-2 - i, 1), R(1,4), R(1,2) >>, Nb |-> << R(-1 - i, 1), RZero, R(1,8) >>] :
-              i \in { j \in 1..Len(bd.stiffs) : bd.stiffs[j].kind \in {"b2d", "t2d"} }, mt \in {"k0", "kG0", "kM"} }
+              i \in 1..Len(bd.stiffs), mt \in {"k0", "kG0", "kM"} }
     \cup { [q |-> "b1dmass", k |-> i] : i \in { j \in 1..Len(bd.stiffs) : bd.stiffs[j].kind = "b1d" /\ ~bd.stiffs[j].base } }
     \cup {
       [q |-> "fext", skin |-> SkinForces(bd.skin), forces |-> Fn([i \in 1..Len(bd.stiffs) |->
